@@ -280,7 +280,7 @@ func genC20(t *rapid.T) *Case {
 	for _, h := range hist {
 		c.Ops = append(c.Ops, Op{K: "subscribe", S: 0, URI: h.Topic, Mode: h.Match})
 	}
-	chunks := rapid.SliceOfN(rapid.Custom(func(t *rapid.T) []Op { return g.ops(t) }), 1, 30).Draw(t, "ops")
+	chunks := rapid.SliceOfN(rapid.Custom(func(t *rapid.T) []Op { return g.ops(t) }), minHistory(t, 30), 30).Draw(t, "ops")
 	for _, ch := range chunks {
 		c.Ops = append(c.Ops, ch...)
 	}
